@@ -92,7 +92,7 @@ func jobC08g(c *rt.Ctx) {
 	}
 	pts := [][]byte{ref.Base().Encode(), ref.Public(make([]byte, 32)), ref.Torsion(1).Encode(), ref.Torsion(4).Encode(), ref.BaseMul(a0).Add(ref.Torsion(7)).Encode()}
 	var scal []*big.Int
-	for d := int64(1); d < 128; d += 6 {
+	for d := int64(1); d < 128; d += 2 {
 		for i := uint(0); i <= 252; i += 9 {
 			x := new(big.Int).Lsh(big.NewInt(d), i)
 			if x.Cmp(ref.L) < 0 {
